@@ -146,14 +146,16 @@ def handle (toks : List String) : String :=
           let (na, r) ← takeVec r
           let (xa, _) ← takeVec r
           pure (showRats (matToList (findTransform m n na xa)))
-      -- rotate C and the Burgers vector: `orient tol T(9) vects(9) Cij(36) b(3)`
+      -- rotate C and the Burgers vector: `orient tolC tol T(9) vects(9) Cij(36) b(3)` (`tolC`: the default `tol` of
+      -- `ElasticConstants.transform`, which `VolterraDislocation.solve` calls without passing its own `tol`)
       | "orient" => done do
-          let (tol, r) ← take1 xs
+          let (tolC, r) ← take1 xs
+          let (tol, r) ← take1 r
           let (T, r) ← takeMat r
           let (vects, r) ← takeMat r
           let (c, r) ← takeMat6 r
           let (b, _) ← takeVec r
-          let c' := orientC tol T c
+          let c' := orientC tolC T c
           pure (showRats ((fin6.flatMap fun i => fin6.map fun j => c' i j) ++ vecToList (orientB tol T vects b)))
       -- Stroh.solve on the eigen-solver's output: `stroh tol rtol pi <problem> sk(6c)`
       | "stroh" => done do
